@@ -66,8 +66,10 @@ package hmac
 //@   ensures err == nil ==> result0 == hmacstr(c, text) && result0 != ""
 //@   ensures err != nil ==> result0 == ""
 
-// Randomness is trusted: n bytes (freshness and unpredictability are cryptographic assumptions).
+// RandomBytes: n bytes, every one of them read from crypto/rand.Reader (io.ReadFull: a short read is an error, never zero padding).
+// That the reader's output is unpredictable and does not repeat is the cryptographic assumption.
 //@ func RandomBytes
-//@   trusted
-//@   ensures result1 == nil ==> len(result0) == n
+//@   requires n >= 0
+//@   assert @call(ReadFull)#1 [C06.random-bytes-read-in-full] $arg0 == rand.Reader && len($arg1) == n
+//@   ensures [C06.random-bytes-read-in-full] result1 == nil ==> len(result0) == n
 //@   ensures result1 != nil ==> len(result0) == 0
